@@ -20,7 +20,7 @@ ASSUMPTIONS = ["commands are executed one at a time (interleavings at lock granu
 TRUSTED = []
 
 # s0 admin (replicated writes), s1 writer, s2 subscriber A, s3 subscriber B
-SETUP = [["conn"], ["conn"], ["conn"], ["conn"], C(0, "auth nun pwd"), C(0, "create-db d1 tok1"), C(1, "use-db d1 tok1"), C(2, "use-db d1 tok1"),
+SETUP = [["conn"], ["conn"], ["conn"], ["conn"], C(0, "auth nun pwd"), C(0, "create-db d1 tok1"), C(0, "create-db d2 tok2"), C(1, "use-db d1 tok1"), C(2, "use-db d1 tok1"),
          C(3, "use-db d1 tok1"), C(0, "use-db d1 tok1")]
 ALPHA = [("c", 2, "watch a"), ("c", 3, "watch a"), ("c", 2, "watch b"), ("c", 2, "unwatch a"), ("c", 2, "unwatch-all"), ("d", 3),
          ("c", 1, "set a x"), ("c", 1, "set-safe a 0 y"), ("c", 1, "increment b"), ("c", 1, "remove a"), ("c", 0, "replicate d1 a -1 z"), ("c", 1, "set b 7")]
@@ -34,8 +34,12 @@ def build(seq):
         if e[0] == "c":
             sid = alive.get(e[1], e[1])
             ops.append(C(sid, e[2]))
-        elif e[0] == "d":
+        elif e[0] in ("d", "x"):
             sid = alive[e[1]]
+            if e[0] == "x":
+                # switch to another database first: the disconnect cleans only the selected one, the
+                # subscriptions left in d1 stay behind with a dead channel
+                ops.append(C(sid, "use-db d2 tok2"))
             ops.append(["disc", str(sid)])
             ops.append(["conn"]); alive[e[1]] = nxt
             ops.append(C(nxt, "use-db d1 tok1")); nxt += 1
@@ -97,6 +101,16 @@ def gen_cases(tier, seed):
         for seq in itertools.product(ALPHA, repeat=L):
             cases.append(("x%d" % k, ["P"], build(seq))); k += 1
     dist["exhaustive"] = k
+    # a subscriber that left through another database, in front of / behind live subscribers
+    STALE = [("c", 2, "watch a"), ("c", 3, "watch a"), ("x", 2), ("x", 3), ("c", 1, "set a x"), ("c", 1, "set-safe a 0 y"),
+             ("c", 1, "increment b"), ("c", 2, "watch b"), ("c", 1, "remove a"), ("c", 0, "replicate d1 a -1 z")]
+    ks = 0
+    for L in range(3, {"quick": 4, "thorough": 5, "search": 4}[tier] + 1):
+        for seq in itertools.product(STALE, repeat=L):
+            if not any(e[0] == "x" for e in seq):
+                continue
+            cases.append(("s%d" % ks, ["P"], build(seq))); ks += 1
+    dist["stale_sender"] = ks
     keys = ["a", "b", "c"]
     for i in range(nrand):
         seq = []
@@ -106,7 +120,8 @@ def gen_cases(tier, seed):
             if r < 0.2: seq.append(("c", rng.choice([2, 3]), "watch " + key))
             elif r < 0.27: seq.append(("c", rng.choice([2, 3]), "unwatch " + key))
             elif r < 0.32: seq.append(("c", rng.choice([2, 3]), "unwatch-all"))
-            elif r < 0.38: seq.append(("d", rng.choice([2, 3])))
+            elif r < 0.35: seq.append(("d", rng.choice([2, 3])))
+            elif r < 0.38: seq.append(("x", rng.choice([2, 3])))
             elif r < 0.58: seq.append(("c", rng.choice([1, 1, 2]), "set %s v%d" % (key, rng.randint(0, 9))))
             elif r < 0.7: seq.append(("c", 1, "set-safe %s %d w%d" % (key, rng.choice([-1, 0, 1, 2, 9]), rng.randint(0, 9))))
             elif r < 0.8: seq.append(("c", 1, "increment %s %d" % (key, rng.randint(1, 3))))
